@@ -19,6 +19,12 @@ where F::Bits: Prim + Encode, F::Bytes: Bytes {
     let x = |i: usize| F::from_bits(<F::Bits as Prim>::parse(arg(a, i)));
     match op {
         "encode" => hex(&x(0).encode()),
+        // the other ways the codec hands out the encoding of a value: Encode::using_encoded / encode_to, the blanket impl for &T, a tuple of two values
+        "encode_using" => x(0).using_encoded(|b| hex(b)),
+        "encode_to" => { let mut v: Vec<u8> = Vec::new(); x(0).encode_to(&mut v); hex(&v) }
+        "encode_ref" => { let v = x(0); hex(&(&v).encode()) }
+        "encode_pair" => hex(&(x(0), x(0)).encode()),
+        "encode_size_hint_ok" => { let v = x(0); format!("{}", (v.size_hint() <= v.encode().len() || v.size_hint() == v.encoded_size()) as u8) }
         "int_encode" => hex(&<F::Bits as Prim>::parse(arg(a, 0)).encode()),
         "encoded_size" => format!("{}", x(0).encoded_size()),
         "max_encoded_len" => format!("{}", F::max_encoded_len()),
